@@ -1,5 +1,6 @@
 import CssVerif.Lemmas.Decl
 import CssVerif.Model.DeclText
+import CssVerif.Model.DeclAttr
 /-!
 # Lemmas about the rendering of the two block kinds (`Model/DeclText.lean`) — helpers for `Props/C10.lean`
 -/
@@ -858,6 +859,203 @@ theorem varsOf_vWritten (pf : SPrefs) (seq : List VItem)
       have ht := ih (fun hp e he => hk hp e (by simpa [varsOf] using he))
       by_cases hc : pf.keepComments = true <;> simp [vWritten, varsOf, hc, ht]
 
+/-! ## the exact text of a variables block under the default preferences -/
+
+/-- a text `Out.append` treats as an ordinary word: not empty, no white space at either end, not one of the
+punctuation strings `append` reacts to, not starting with `*` -/
+structure Solid (x : Cps) : Prop where
+  ne : x ≠ []
+  headNotWs : ∀ c t, x = c :: t → isWs c = false
+  lastNotWs : ∀ c, x.getLast? = some c → isWs c = false
+  notPunct : isInfix x punctPre = false
+  notComb : isInfix x combChars = false
+  notNoSpace : isInfix x noSpaceChars = false
+  notStar : ([42] : Cps).isPrefixOf x = false
+
+theorem Solid.notEndsSp {x : Cps} (h : Solid x) : endsSp x = false := by
+  unfold endsSp
+  cases hl : x.getLast? with
+  | none => rfl
+  | some c =>
+    have := h.lastNotWs c hl
+    have hc : c ≠ 32 := by intro e; subst e; simp [isWs] at this
+    simp [hc]
+
+theorem Solid.ne_of_infix {x y : Cps} (hy : isInfix y punctPre = true ∨ isInfix y combChars = true ∨ isInfix y noSpaceChars = true)
+    (h : Solid x) : x ≠ y := by
+  intro e; subst e
+  rcases hy with hy | hy | hy
+  · rw [h.notPunct] at hy; cases hy
+  · rw [h.notComb] at hy; cases hy
+  · rw [h.notNoSpace] at hy; cases hy
+
+/-- `Out.append` of an ordinary word under the default preferences: the word and a blank -/
+theorem outAppend_solid (il : Nat) (o : OutL) (x : Cps) (h : Solid x) :
+    outAppend SPrefs.default il o x false = [32] :: x :: o := by
+  have h1 : x ≠ [125] := h.ne_of_infix (Or.inl (by decide))
+  have h2 : x ≠ [41] := h.ne_of_infix (Or.inl (by decide))
+  have h3 : x ≠ [44] := h.ne_of_infix (Or.inl (by decide))
+  have h4 : x ≠ [58] := h.ne_of_infix (Or.inl (by decide))
+  have h5 : x ≠ [123] := h.ne_of_infix (Or.inl (by decide))
+  have h6 : x ≠ [59] := h.ne_of_infix (Or.inl (by decide))
+  have h7 : x ≠ [61] := h.ne_of_infix (Or.inl (by decide))
+  cases o with
+  | nil =>
+    simp [outAppend, SPrefs.default, h.ne, h.notPunct, h.notEndsSp, h.notComb, h.notNoSpace, h1, h2, h3, h4, h5, h6]
+  | cons last r =>
+    simp [outAppend, SPrefs.default, h.ne, h.notPunct, h.notEndsSp, h.notComb, h.notNoSpace, h.notStar, h1, h2, h3, h4, h5, h6, h7]
+
+theorem outAppend_colon (il : Nat) (o : OutL) (x : Cps) :
+    outAppend SPrefs.default il ([32] :: x :: o) [58] false = [32] :: [58] :: x :: o := by
+  cases hx : allWs x <;> simp [outAppend, SPrefs.default, removeLastIfS, allWs, isWs, isInfix, punctPre, combChars, cps, endsSp, endsEscSp, hx] <;> decide
+
+theorem outAppend_semicolon (il : Nat) (o : OutL) (c : Cps) :
+    outAppend SPrefs.default il ([32] :: c :: o) [59] false = [10] :: [59] :: c :: o := by
+  cases hx : allWs c <;> simp [outAppend, SPrefs.default, removeLastIfS, allWs, isWs, isInfix, punctPre, combChars, cps, endsSp, endsEscSp, hx] <;> decide
+
+/-- a block of variables only, whose written names and value texts are ordinary words -/
+def SolidVars (re : REnv) : List VItem → Prop
+  | [] => True
+  | .var n v :: rest => Solid (normalize n) ∧ Solid (re.vtext v) ∧ SolidVars re rest
+  | .other _ :: _ => False
+
+/-- `name: value` per variable, `;` + line break between them -/
+def vBody (re : REnv) : List VItem → Cps
+  | [] => []
+  | [.var n v] => normalize n ++ [58, 32] ++ re.vtext v
+  | .var n v :: rest => normalize n ++ [58, 32] ++ re.vtext v ++ [59, 10] ++ vBody re rest
+  | .other t :: rest => t ++ vBody re rest
+
+theorem vOutLoop_solid (re : REnv) (il : Nat) (l : List VItem) (o : OutL) (hne : l ≠ []) (hs : SolidVars re l) :
+    (removeLastIfS (vOutLoop SPrefs.default re il l o)).reverse.flatten = o.reverse.flatten ++ vBody re l := by
+  induction l generalizing o with
+  | nil => exact absurd rfl hne
+  | cons it rest ih =>
+    cases it with
+    | other t => exact absurd hs (by simp [SolidVars])
+    | var n v =>
+      obtain ⟨hn, hv, hrest⟩ := hs
+      have hname : varNameText SPrefs.default n = normalize n := by simp [varNameText, SPrefs.default]
+      have hom : SPrefs.default.omitLastSemicolon = true := rfl
+      cases rest with
+      | nil =>
+        simp only [vOutLoop, vItemOut, hname, outAppend_solid il o _ hn, outAppend_colon, outAppend_solid il _ _ hv,
+          List.isEmpty_nil, hom, Bool.not_true, Bool.or_self, Bool.false_eq_true, if_false, vBody]
+        simp [removeLastIfS, allWs, isWs]
+      | cons x xs =>
+        have := ih ([10] :: [59] :: re.vtext v :: [32] :: [58] :: normalize n :: o) (by simp) hrest
+        simp only [vOutLoop, vItemOut, hname, outAppend_solid il o _ hn, outAppend_colon, outAppend_solid il _ _ hv,
+          List.isEmpty_cons, Bool.not_false, Bool.true_or, if_true, outAppend_semicolon] at this ⊢
+        rw [this]
+        cases x <;> simp [vBody]
+
+theorem stripKeepEsc_id (s : Cps) (hh : ∀ c t, s = c :: t → isWs c = false)
+    (hl : ∀ c, s.getLast? = some c → isWs c = false) : stripKeepEsc s = s := by
+  have h1 : lstrip s = s := by
+    cases s with
+    | nil => rfl
+    | cons c t => simp [lstrip, List.dropWhile, hh c t rfl]
+  have h2 : rstrip s = s := by
+    unfold rstrip
+    cases hr : s.reverse with
+    | nil => simp at hr; subst hr; rfl
+    | cons c t =>
+      have hc : s.getLast? = some c := by
+        rw [List.getLast?_eq_head?_reverse, hr]; rfl
+      have := hl c hc
+      simp only [List.dropWhile, this]
+      rw [← hr, List.reverse_reverse]
+  unfold stripKeepEsc
+  simp only [h1, h2, Nat.lt_irrefl, decide_false, Bool.and_false, Bool.false_eq_true, if_false]
+
+theorem getLast?_append_ne (a b : Cps) (hb : b ≠ []) : (a ++ b).getLast? = b.getLast? := by
+  rw [List.getLast?_append]
+  cases h : b.getLast? with
+  | none => exact absurd (List.getLast?_eq_none_iff.mp h) hb
+  | some x => rfl
+
+theorem vBody_ne (re : REnv) (l : List VItem) (hne : l ≠ []) (hs : SolidVars re l) : vBody re l ≠ [] := by
+  cases l with
+  | nil => exact absurd rfl hne
+  | cons it rest =>
+    cases it with
+    | other t => exact absurd hs (by simp [SolidVars])
+    | var n v =>
+      have := hs.1.ne
+      cases rest <;> simp [vBody, this]
+
+theorem vBody_head (re : REnv) (l : List VItem) (hs : SolidVars re l) :
+    ∀ c t, vBody re l = c :: t → isWs c = false := by
+  intro c t h
+  cases l with
+  | nil => simp [vBody] at h
+  | cons it rest =>
+    cases it with
+    | other t => exact absurd hs (by simp [SolidVars])
+    | var n v =>
+      obtain ⟨hn, _, _⟩ := hs
+      cases hnn : normalize n with
+      | nil => exact absurd hnn hn.ne
+      | cons c' t' =>
+        have hc := hn.headNotWs c' t' hnn
+        cases rest <;> (simp only [vBody, hnn, List.cons_append, List.cons.injEq] at h; rw [← h.1]; exact hc)
+
+theorem vBody_last (re : REnv) (l : List VItem) (hs : SolidVars re l) :
+    ∀ c, (vBody re l).getLast? = some c → isWs c = false := by
+  induction l with
+  | nil => intro c h; simp [vBody] at h
+  | cons it rest ih =>
+    cases it with
+    | other t => exact absurd hs (by simp [SolidVars])
+    | var n v =>
+      obtain ⟨_, hv, hrest⟩ := hs
+      intro c h
+      cases rest with
+      | nil =>
+        simp only [vBody] at h
+        rw [getLast?_append_ne _ _ hv.ne] at h
+        exact hv.lastNotWs c h
+      | cons x xs =>
+        have hne := vBody_ne re (x :: xs) (by simp) hrest
+        simp only [vBody] at h
+        rw [getLast?_append_ne _ _ hne] at h
+        exact ih hrest c h
+
+/-- the exact text of a variables block under the default preferences, when the block holds variables only and the
+written names and value texts are ordinary words: `name: value` per variable, joined by `;` and a line break -/
+theorem vCssTextP_exact_default (re : REnv) (il : Nat) (s : Vars) (hne : s.seq ≠ []) (hs : SolidVars re s.seq) :
+    vCssTextP SPrefs.default re il s = vBody re s.seq := by
+  unfold vCssTextP
+  have h0 : s.seq.length > 0 := by
+    cases hq : s.seq with
+    | nil => exact absurd hq hne
+    | cons a b => simp
+  simp only [h0, if_true]
+  have := vOutLoop_solid re il s.seq [] hne hs
+  simp only [List.reverse_nil, List.flatten_nil, List.nil_append] at this
+  unfold outValue
+  rw [this]
+  exact stripKeepEsc_id _ (vBody_head re s.seq hs) (vBody_last re s.seq hs)
+
+/-! ## attribute access -/
+
+theorem attrCss_known (hrt : ∀ n ∈ CssVerif.Gen.C10.propertyNames, toCSS (toDOM n) = n)
+    (n : Cps) (hn : n ∈ CssVerif.Gen.C10.propertyNames) : attrCss (toDOM n) = some n := by
+  unfold attrCss
+  cases hf : attrTable.reverse.find? (fun e => e.1 == toDOM n) with
+  | none =>
+    have := List.find?_eq_none.mp hf (toDOM n, toCSS (toDOM n)) (by
+      rw [List.mem_reverse]; exact List.mem_map.mpr ⟨n, hn, rfl⟩)
+    simp at this
+  | some e =>
+    have hp := List.find?_some hf
+    have hm := List.mem_of_find?_eq_some hf
+    rw [List.mem_reverse] at hm
+    obtain ⟨m, _, hme⟩ := List.mem_map.mp hm
+    simp only [beq_iff_eq] at hp
+    have : e.2 = toCSS e.1 := by rw [← hme]
+    simp only [this, hp, hrt n hn]
+
 /-! ## witnesses for the examples of `Props/C10.lean` -/
 
 /-- `c: 1 !important; /*k*/ c: 2` -/
@@ -877,5 +1075,21 @@ def varsWitness : Vars :=
 def reparseWitness : List Item :=
   [.prop { wf := true, nameSeq := [.str [99]], lit := [99], name := [99], val := ⟨[50], [50]⟩,
            prioSeq := [], litPrio := [], prio := [] }]
+
+/-- `x: 1; y: 2` -/
+def solidWitness : Vars :=
+  { vars := [([120], ⟨[49], [49]⟩), ([121], ⟨[50], [50]⟩)],
+    seq := [.var [120] ⟨[49], [49]⟩, .var [121] ⟨[50], [50]⟩] }
+
+theorem solid_single (c : Nat) (h1 : isWs c = false) (h2 : isInfix [c] punctPre = false)
+    (h3 : isInfix [c] combChars = false) (h4 : isInfix [c] noSpaceChars = false) (h5 : (c == 42) = false) :
+    Solid [c] where
+  ne := by simp
+  headNotWs := by intro a t h; simp at h; rw [← h.1]; exact h1
+  lastNotWs := by intro a h; simp at h; rw [← h]; exact h1
+  notPunct := h2
+  notComb := h3
+  notNoSpace := h4
+  notStar := by simp [List.isPrefixOf]; intro h; simp [h] at h5
 
 end CssVerif.Decl
